@@ -79,7 +79,24 @@ def rich_story(rng, sid, timing=None):
         meta = E('mosExternalMetadata', E('mosSchema', text='x'))
     elif timing != 'nometa':
         meta = E('mosExternalMetadata', E('mosSchema', text='http://s'), E('mosPayload', *pl))
-    return story(sid, body=body, slug=('Story %s' % sid) if rng.random() < 0.8 else None, meta=meta)
+    st = story(sid, body=body, slug=('Story %s' % sid) if rng.random() < 0.8 else None, meta=meta)
+    r = rng.random()
+    if r < 0.3:
+        # further metadata blocks of other schemas: only the first block of the story (and its first mosPayload) counts
+        other = E('mosExternalMetadata', E('mosSchema', text='http://other'),
+                  E('mosPayload', E('StoryDuration', text='99'), E('TextTime', text='98'), E('MediaTime', text='5'),
+                    E('StoryStarted', text=TIMES[1]), E('StoryEnded', text=TIMES[0])))
+        kids = list(st)
+        firsts = [i for i, c in enumerate(kids) if c.tag == 'mosExternalMetadata']
+        if r < 0.12 or not firsts:
+            st.append(other)                                             # after everything else
+        elif r < 0.2:
+            st.insert(firsts[0] + 1, other)                              # right after the first block
+        elif r < 0.25:
+            st.insert(firsts[0], E('mosExternalMetadata', E('mosSchema', text='http://empty')))   # a block without payload first
+        else:
+            kids[firsts[0]].append(E('mosPayload', E('StoryDuration', text='77'), E('StoryStarted', text=TIMES[1])))   # a second payload
+    return st
 
 
 def rich_ro(rng, n, all_timed=False, dup_ids=False):
